@@ -111,9 +111,10 @@ func VH_c13_edit() {
 var c13extPool = []string{
 	"rt:65000:100", "rt:^65000:100$", "rt:^65000:.*$", `rt:^\d+:100$`, `rt:^\d+:200$`, "rt:^65000:(100|200)$",
 	"soo:^65000:100$", "rt:^65000:70000$", "rt:65000:1[0-9]+", "rt:^0650:1$", `rt:^65000:\d+$`,
+	"rt:^65000:65535$", "rt:^65000:65536$", // exact entries on both sides of the 16-bit local administrator boundary
 }
 
-var c13extSets = [][]int{{1}, {2}, {3}, {5}, {7}, {8}, {9}, {3, 4}, {1, 6}, {5, 3}, {2, 8}, {10, 7}}
+var c13extSets = [][]int{{1}, {2}, {3}, {5}, {7}, {8}, {9}, {3, 4}, {1, 6}, {5, 3}, {2, 8}, {10, 7}, {11}, {11, 12}}
 
 func c13extEval(set *ExtCommunitySet) {
 	opt := []MatchOption{MATCH_OPTION_ANY, MATCH_OPTION_ALL, MATCH_OPTION_INVERT}[vChoice("opt", 3)]
